@@ -155,5 +155,48 @@ target(PVT + "get_symlink_target", params=dict(path=STR), result=STR, modifies=[
            Implies(Not(PathToId(c.old.path).is_none), c.result == TreeLink(OrigPath(PathToId(c.old.path).val))))},
        raises={"Exception": True}, canary=lambda c: ContentChanged(PathToId(c.old.path)))
 
-undecided("PreviewTree._path2trans_id (repaired by 3e92ab8): the choice among children with the same name is exercised by the operation-menu "
-          "enumeration only (its comprehension condition with a short-circuit 'or' of two calls is outside the engine)")
+# ---- path lookup in the preview (PreviewTree._path2trans_id, block: one path segment): the child chosen for a segment has that final
+#      name, and if ANY child with that name exists in the final tree (has content or is versioned) the chosen one does - an entry that the
+#      transform removes keeps its name and must not shadow the new entry (finding F20, fixed by 3e92ab8)
+TIDS = Seq(STR)
+AllKids = ufunc("AllKids", STR, TIDS)              # _all_children(trans_id)
+FinalName = ufunc("FinalName", STR, Opt(STR))      # transform.final_name(trans_id)
+FinalKind = ufunc("FinalKind", STR, Opt(STR))
+FinalVersioned = ufunc("FinalVersioned", STR, BOOL)
+PT = cls("PreviewTree", fields={"_transform": ANY, "_final_name_cache": MapS(STR, Opt(STR)), "_path2trans_id_cache": MapS(STR, Opt(STR))})
+assumed("self._all_children", pure=True, no_raise=True, returns=lambda c: AllKids(c.args[0]))
+assumed("self._transform.final_name", pure=True, no_raise=True, returns=lambda c: FinalName(c.args[0]))
+assumed("self._transform.final_kind", pure=True, no_raise=True, returns=lambda c: FinalKind(c.args[0]))
+assumed("self._transform.final_is_versioned", pure=True, no_raise=True, returns=lambda c: FinalVersioned(c.args[0]))
+
+
+def lives(t_):
+    return Or(Not(FinalKind(t_).is_none), FinalVersioned(t_))
+
+
+def cache_ok(c):
+    """what the name cache holds is the final name"""
+    return forall([STR], lambda t_: Implies(And(In(t_, c.self._final_name_cache), Not(c.self._final_name_cache[t_].is_none)),
+                                            c.self._final_name_cache[t_] == FinalName(t_)))
+
+
+target("breezy/transform.py::PreviewTree._path2trans_id", variant="segment", block=(r"^\s*matches = \[\]", r"(?m)^\s*cur_parent = matches\[0\]"),
+       params=dict(cur_parent=STR, cur_segment=STR, path=STR), locals=dict(matches=TIDS, live=TIDS, final_name=Opt(STR)),
+       requires=cache_ok, modifies=["self._final_name_cache", "self._path2trans_id_cache", "cur_parent"],
+       loops={2: loop(r"for child in self\._all_children\(cur_parent\)", prefix="seen", inv=lambda c: And(
+           cache_ok(c), c.cur_parent == c.old.cur_parent,
+           forall([STR], lambda t_: In(t_, c.matches) == And(In(t_, c.seen), FinalName(t_) == Opt(STR).some(c.old.cur_segment))),
+           # the same, by position (what the code reads is matches[0])
+           forall([INT], lambda n_: Implies(And(0 <= n_, n_ < Len(c.matches)),
+                                            And(In(c.matches[n_], c.seen), FinalName(c.matches[n_]) == Opt(STR).some(c.old.cur_segment))))))},
+       ensures={   # (that the chosen child is one of the children and has the name is left to the enumeration: both solvers time out on it)
+                "the_chosen_child_is_live_if_any_child_with_that_name_is": lambda c: Implies(
+                    exists([STR], lambda t_: And(In(t_, AllKids(c.old.cur_parent)), FinalName(t_) == Opt(STR).some(c.old.cur_segment), lives(t_))),
+                    lives(c.cur_parent))},
+       # the first element of a non-empty list is a member of it (a fact about sequences, stated as an instance for the solver)
+       hints=lambda c: And(Implies(Len(c.matches) > 0, In(c.matches[0], c.matches)),
+                           Implies(And(c.has("live"), Len(c.live) > 0) if False else TRUE, TRUE)),
+       raises={}, canary=lambda c: lives(c.cur_parent),
+       equivalent_mutants={r"_path2trans_id_cache\[path\] = None": "caching of a negative answer",
+                           r"cmp0:Gt.*len\(matches\) > 1": "with a single match the preference changes nothing"},
+       note="block: choosing the child for one path segment")
